@@ -445,6 +445,11 @@ def _pyvc_unsupported():
     return pyvc.Unsupported
 
 
+def _pyvc_raise():
+    from . import pyvc
+    return pyvc.PyRaise
+
+
 class FnObligation(Obligation):
     """an obligation decided by a custom procedure returning a Result-like dict"""
 
@@ -461,6 +466,12 @@ class FnObligation(Obligation):
         except (JI.Unsupported, _pyvc_unsupported()) as e:
             res["status"] = "undecided"
             res["detail"] = f"unsupported: {e}"
+        except _pyvc_raise() as e:
+            # the code under contract raises on a path the contract's precondition allows
+            res["status"] = "violated"
+            res["failure"] = "raises"
+            res["detail"] = f"the function raises {e.exc_name} under the contract's precondition: {e.msg}"
+            res["replay"] = {"native_disagrees": False, "solver_output": f"symbolic execution reached `raise {e.exc_name}`"}
         except Exception:
             res["detail"] = "checker exception: " + traceback.format_exc(limit=8)
         res["time_s"] = time.time() - t0
